@@ -928,7 +928,9 @@ def _emit_update_statements(
                     value_params,
                     has_all_defaults,
                     has_all_pks,
-                ) in records:
+                ), compiled_params in zip(
+                    records, c.context.compiled_parameters
+                ):
                     if bookkeeping:
                         _postfetch(
                             mapper,
@@ -937,7 +939,7 @@ def _emit_update_statements(
                             state,
                             state_dict,
                             c,
-                            c.context.compiled_parameters[0],
+                            compiled_params,
                             value_params,
                             True,
                             (
